@@ -69,6 +69,29 @@ def truncateKey (powers : List G1) (d : Nat) : Except KErr (List G1) :=
   else if d > powers.length - 1 then .error .truncatedDegreeTooLarge
   else .ok (powers.take ((if d == 1 then 2 else d) + 1))
 
+/-- length-only view of `truncate` (what compilation needs from the commit key in the trapdoor view) -/
+def truncateLen (len d : Nat) : Except KErr Nat :=
+  if d == 0 then .error .truncatedDegreeIsZero
+  else if d > len - 1 then .error .truncatedDegreeTooLarge
+  else .ok (min len ((if d == 1 then 2 else d) + 1))
+
+/-- the three setup draws without materialising the powers (`powers := []`): for the trapdoor prover -/
+def SRS.setupLite (maxDegree : Nat) (draws : List Nat) : Except KErr (SRS × Nat) :=
+  if maxDegree < 1 then .error .degreeIsZero else
+  let maxDegree := maxDegree + Generated.ADDED_BLINDING_DEGREE
+  match nextNonzero draws with
+  | none => .error .notEnoughDraws
+  | some (x, ds) =>
+    match nextNonzero ds with
+    | none => .error .notEnoughDraws
+    | some (sg, ds) =>
+      match nextNonzero ds with
+      | none => .error .notEnoughDraws
+      | some (sh, _) =>
+        let g := G1.smul sg G1.gen
+        let h := G2.smul sh G2.gen
+        .ok ({ powers := [], g := g, h := h, xh := G2.smul x h, x := x }, maxDegree + 1)
+
 /-- `PublicParameters::trim(n)` -/
 def SRS.trim (s : SRS) (n : Nat) : Except KErr (List G1) :=
   truncateKey s.powers (n + Generated.ADDED_BLINDING_DEGREE)
